@@ -13,7 +13,7 @@
 (***************************************************************************)
 EXTENDS ModbusPDU, CodecAPI
 
-FramingOf(client) == IF client = "tcp" THEN "tcp" ELSE "rtu"
+FramingOf(client) == IF client \in {"tcp", "tcpgen"} THEN "tcp" ELSE "rtu"   \* "tcpgen": the configurable client with the TCP functions
 
 \* R is the normal reply a conforming device sends to request r
 ProperNormal(fr, r, R) ==
